@@ -43,6 +43,7 @@ type Report struct {
 	Missing      []MissingFn
 	EngineErrors []EngineErr
 	Results      []*CheckResult
+	Extra        []*CheckResult
 	Unknown      map[string]bool
 	Notes        map[string]bool
 }
@@ -302,7 +303,7 @@ func (r *Report) finish(workdir string) int {
 		prop, r.Tier, len(r.Funcs), len(r.pathsTotal()), nObl, nDis, len(knownHit), violations, r.LoadSecs, r.GenSecs, r.SolveSecs, wall)
 	if *flagVerbose {
 		for _, o := range oblist {
-			fmt.Printf("  %-12s %-9s %6.2fs %s  -- %s\n", o.Status, o.Class, o.Secs, o.Name, o.Info)
+			fmt.Printf("  %-12s %-9s %6.2fs %-10s %s  -- %s\n", o.Status, o.Class, o.Secs, o.Solver, o.Name, o.Info)
 		}
 	}
 	if !*flagNoEvid && prop != "" {
@@ -425,6 +426,17 @@ func (r *Report) writeEvidence(oblist []*Oblig, nObl, nDis int, knownHit []strin
 	for _, u := range unk {
 		assumptions = append(assumptions, "external callee without contract (results and reachable memory arbitrary): "+u)
 	}
+	for k, c := range r.DB.Contracts {
+		if c.Trusted {
+			continue
+		}
+		for _, e := range c.Ensures {
+			if e.Kind == "assumes" {
+				assumptions = append(assumptions, "ASSUMED (not checked against the body) postcondition of "+k+": "+e.Text)
+			}
+		}
+	}
+	sort.Strings(assumptions)
 	ev := map[string]interface{}{
 		"property_id": r.Prop,
 		"tier":        r.Tier,
